@@ -228,7 +228,7 @@ pub fn judge(case: &Case, acc: &mut Acc) {
 }
 
 pub fn run(ctx: &Ctx) -> i32 {
-    let n = ctx.size(1500, 30000);
+    let n = ctx.size(1500, 150000);
     let seed = ctx.seed;
     let acc = crate::par::run(n, 4, |i, acc| {
         let mut rng = Rng::derive(seed, 0xc15, i as u64);
